@@ -2,7 +2,7 @@
    Care is taken never to make Coq reduce a filter over the big tables with a VARIABLE class name (the conversion of
    two such stuck terms is exponential): the per-class statements go through the closed, pre-grouped tables. *)
 From Coq Require Import String List Bool. Import ListNotations. Open Scope string_scope.
-Require Import Registry Registryproof Attr Attrproof Gen_Registry Gen_Ctors C12tab.
+Require Import Registry Registryproof Attr Attrproof Gen_Registry Gen_Ctors C12defs C12tab.
 
 Lemma model_registry_nodup : NoDup (map fst model_registry).
 Proof. unfold model_registry. destruct lxml_registrations; [apply build_nodup|constructor]. Qed.
